@@ -59,7 +59,7 @@ class Engine(Interp, InterpExpr, InterpComp, InterpStmt, InterpCall, InterpBuilt
 
     # ------------------------------------------------------------------ symbolic inputs
     def make_symbolic(self, name, ty):
-        if ty in (INT, BOOL, REAL, STR) or isinstance(ty, TEnum):
+        if ty in (INT, BOOL, REAL, STR, FP64) or isinstance(ty, TEnum):
             v = SV(z3.Const(name, sort_of(ty)), ty)
             if ty == STR:
                 self.run.assume(v.t != STR_NONE, silent=True)
@@ -263,6 +263,23 @@ class Engine(Interp, InterpExpr, InterpComp, InterpStmt, InterpCall, InterpBuilt
                 t = self.eval_clause(cl, c2.module, bindings)
                 self.run.oblige(f'call-pre:{cl.name}/{tag}', 'call-pre', t, line)
                 self.run.assume(t)
+        dec = con.attrs.get('decreases')
+        if con is self.reg.current and isinstance(dec, ast.FunctionDef) and self.mode == EXEC:
+            # recursive call of the function under proof: its own contract is used, the declared measure must decrease
+            def measure(b):
+                names = [a.arg for a in dec.args.args]
+                sub = Frame(None, con.module, {n: b[n] for n in names}, None, None)
+                saved = self.mode
+                self.mode = SPEC
+                try:
+                    self.exec_block(dec.body, sub)
+                except ReturnEx as r:
+                    return self.num_term(r.value, line)
+                finally:
+                    self.mode = saved
+                raise Unsupported('decreases clause does not return')
+            m_call, m_entry = measure(bindings), measure(self.entry_vars)
+            self.run.oblige(f'term:recursion/{tag}', 'term', z3.And(m_call >= 0, m_call < m_entry), line)
         heap_before = self.heap.snapshot()
         mods = self.eval_modifies(con, bindings)
         if not con.pure:
@@ -373,6 +390,11 @@ class Engine(Interp, InterpExpr, InterpComp, InterpStmt, InterpCall, InterpBuilt
             for x in (result if isinstance(result, tuple) else (result,)):
                 if isinstance(x, SV) and x.ty == STR:
                     self.run.assume(x.t != STR_NONE, silent=True)
+        elif con.attrs.get('fresh') and isinstance(rty, (TList, TSet, TDict)):
+            # the external returns a NEW container (allocated by the call), contents unconstrained
+            kind = 'list' if isinstance(rty, TList) else 'set' if isinstance(rty, TSet) else 'dict'
+            result = self.wrap(self.alloc(kind), rty)
+            self.assume_container_shape(result)
         else:
             result = self.fresh_value('ext_' + con.target.split('.')[-1], rty)
         bindings['result'] = result
@@ -591,6 +613,20 @@ def verify_lemma(world, modname, node, kw, budget=None):
     res.solver_seconds = runner.solver_seconds
     res.queries = runner.queries
     return res
+def param_variant(variant):
+    """a variant written 'p=<expr>; q:<Type>' fixes parameters instead of the class of self: p gets the concrete value
+    of <expr> (evaluated in the contract module), q is given the type <Type> (functions whose parameters are Union-typed
+    or are attribute names / classes passed as literals by every caller)"""
+    if not variant or not any(c in variant for c in '=:'):
+        return None
+    out = {}
+    for part in variant.split(';'):
+        part = part.strip()
+        if not part:
+            continue
+        i = min(x for x in (part.find('='), part.find(':')) if x >= 0)
+        out[part[:i].strip()] = (part[i], part[i + 1:].strip())
+    return out
 
 
 def _bindings(eng, fi, con, variant):
@@ -606,9 +642,23 @@ def _bindings(eng, fi, con, variant):
             consts[k] = ClassV(v[6:])
             continue
         ptypes[k] = eng.ts.ann_to_type(ast.parse(v, mode='eval').body, fi.module, fi.cls)
+    pv = param_variant(variant)
+    if pv is not None:
+        variant = None
+        for k, (kind, text) in pv.items():
+            if kind == ':':
+                ptypes[k] = eng.ts.ann_to_type(ast.parse(text, mode='eval').body, fi.module, fi.cls)
     vars_ = {}
     for a in fi.node.args.posonlyargs + fi.node.args.args + fi.node.args.kwonlyargs:
         n = a.arg
+        if pv is not None and n in pv and pv[n][0] == '=':
+            saved = eng.mode
+            eng.mode = SPEC
+            try:
+                vars_[n] = eng.ev(ast.parse(pv[n][1], mode='eval').body, Frame(None, con.module))
+            finally:
+                eng.mode = saved
+            continue
         if n == 'self' and fi.cls:
             cls = variant or fi.cls
             obj = ObjV(z3.Const('self', Ref), cls)
